@@ -14,8 +14,11 @@ ASSUMPTIONS = [
 MANIFEST = dict(
     level_text=("Theorems C11_simplify_sys_rel, C11_runs_unchanged, C11_initial_unchanged, C11_init_seq_unchanged, C11_observations_unchanged "
                 "(simplifying a well-formed system keeps inputs/states and yields pointwise-equivalent executions, initial valuations and "
-                "observations, for all systems and all runs) and C11_replace_is_map, C11_replace_zero_sound (zero substitution lemma, removed "
-                "inputs absent, typing preserved). Built on C01_simp_sound. Tie: the extracted transformations must produce exactly the system "
+                "observations, for all systems and all runs); C11_replace_is_map, C11_replace_zero_sound (zero substitution lemma, removed "
+                "inputs absent, typing preserved) and, at the level of executions, C11_replace_inputs, C11_replace_runs, C11_replace_restriction, "
+                "C11_replace_initial, C11_replace_observations (the new system is exactly the original restricted to executions in which the removed "
+                "inputs are zero: runs, initial valuations and observations correspond in both directions; domain: no anonymous input is at once a "
+                "state symbol). Built on C01_simp_sound. Tie: the extracted transformations must produce exactly the system "
                 "the real functions produce, and the oracle re-checks equivalence on the implementation's output."),
     level_note="Trusted: Coq kernel, hand-written model tied by exact-result differential execution, extraction, generators; names side table not modelled.",
 )
